@@ -195,9 +195,26 @@ fn judge(report: &mut Report, s: &Scenario, base: &Trace, plan: &BTreeMap<u64, F
             Some(CallResult::Ok { position, .. }) => Some(position.clone()),
             _ => None,
         };
+        // a draw evaluates a point it has evaluated before only when the step size search is re-run from the current
+        // point (after the first transformation update): recognisable in the faulted trace itself
+        let prev_pos: Option<Vec<f64>> = if ci == 0 {
+            None
+        } else {
+            match tr.calls.get(ci - 1).map(|c| &c.result) {
+                Some(CallResult::Ok { position, .. }) => Some(position.clone()),
+                _ => Some(tr.start.clone()),
+            }
+        };
+        let revisit = |k: u64| -> bool {
+            let Some(e) = tr.evals.get(k as usize) else { return false };
+            prev_pos.as_ref().map(|p| same_bits(p, &e.0)).unwrap_or(false)
+                || tr.evals[call.start as usize..k as usize].iter().any(|(p, faulted)| !*faulted && same_bits(p, &e.0))
+        };
         let site = |k: u64| -> &'static str {
             if ci == 0 {
                 if at_start(k) { "initial_point" } else { "step_size_search" }
+            } else if !is_first && revisit(k) {
+                "research_current_point"
             } else if !is_first {
                 "after_earlier_fault"
             } else if base_steps.map(|n| k - call.start < n).unwrap_or(false) {
